@@ -493,6 +493,7 @@ func Main(r *core.Run) {
 	b := Bounds(r.Quick())
 	r.Rule(fmt.Sprintf("explicit-state breadth-first search over assembler call sequences: alphabet BeginMap/BeginList, AssignNull/Int/String, AssignNode(prebuilt scalar|map|list × basicnode|foreign), AssembleEntry(k), AssembleKey().AssignString(k)/AssignNode(k)+AssembleValue(), Finish, Build, Reset; keys %v, nesting ≤%d, ≤%d entries per container, ≤%d calls; a repeated key injected through all three key routes at every position where a key is present, a non-string key and (kind-specific builders) a wrong root kind injected at every position; state = contract model (open containers, phases, partial value, first rejection route); every transition replays the path on a fresh real builder. Non-trivial: every transition (distinct call sequence).", b.keys, b.maxDepth, b.maxEntries, b.maxCalls))
 	r.Assume("call orders the contract declares misuse are not generated")
+	r.Assume("typed engines (reflection binding; generated code when linked): map-shaped assemblers of every family root (structs with map representation incl. renames/optionals, typed maps) at both levels — keys through all three routes, repeated keys injected at every state, Finish with and without the required fields, Build compared with the model")
 	for _, e := range Engines {
 		explore(r, e, b)
 	}
@@ -501,6 +502,11 @@ func Main(r *core.Run) {
 }
 
 func Replay(r *core.Run, raw json.RawMessage) {
+	var tc TCase
+	if json.Unmarshal(raw, &tc) == nil && tc.Schema != "" {
+		ReplayTyped(r, tc)
+		return
+	}
 	var c Case
 	if err := json.Unmarshal(raw, &c); err != nil {
 		panic(err)
